@@ -136,6 +136,13 @@ def ev_merge_dst(w, src, author=AUTHOR):
     w.set_ref(src, sha)
 
 
+def ev_rm_ref(w, branch):
+    """Somebody deletes a branch on the remote by hand (e.g. an integration
+    branch, as Bert-E's conflict message tells the author to do)."""
+    if branch in w.heads():
+        w.del_ref(branch)
+
+
 def ev_reset_src(w, src):
     """Force-push src back to its first parent."""
     tip = w.refs()[src]
@@ -405,7 +412,7 @@ TABLE = {
     'seq': ev_seq, 'mkbranch': ev_mkbranch, 'tag': ev_tag,
     'open': ev_open, 'open_raw': ev_open_raw, 'push': ev_push,
     'amend': ev_amend, 'rebase': ev_rebase, 'reset_src': ev_reset_src,
-    'merge_dst': ev_merge_dst,
+    'merge_dst': ev_merge_dst, 'rm_ref': ev_rm_ref,
     'manual': ev_manual, 'approve': ev_approve, 'unapprove': ev_unapprove,
     'request_changes': ev_request_changes, 'participate': ev_participate,
     'comment': ev_comment, 'uncomment': ev_uncomment, 'decline': ev_decline,
